@@ -19,7 +19,8 @@ RULE = (
     "restricted to the respondents belonging to k, re-encoded as a 2-D cube, and EVERY public "
     "output of partition k must equal that of the 2-D analysis. (sets) tabbook-style, "
     "CA-as-0th and numeric-summary CubeSets are compared with the univariate / bivariate "
-    "cubes they are made of. Non-trivial: a missing table category before a valid one, or an "
+    "cubes they are made of; single-column-filter cubes on a text variable (zz9 leaves out "
+    "the values no filtered respondent gave) are compared with respondent counts. Non-trivial: a missing table category before a valid one, or an "
     "MR table with item missingness, or >= 2 partitions that differ."
 )
 BOUNDS = "respondents 0..24, table elements 1..4 (+<=2 missing), rows/cols 1..4 valid, items 1..3"
@@ -217,8 +218,26 @@ def judge_3d(case, rec):
 @st.composite
 def case_set_st(draw):
     kind = draw(st.sampled_from(["tabbook", "tabbook", "ca0", "ca0", "numeric", "single",
-                                 "single"]))
+                                 "single", "filtercol"]))
     n = draw(scen.S.n_st(20))
+    if kind == "filtercol":
+        # a text variable on the rows of a multitable whose columns are single-column
+        # filters: zz9 omits the text values no filtered respondent gave
+        nv = draw(st.integers(1, 5))
+        cats = [{"id": i, "name": None, "missing": False, "value": None, "evalue": "t%d" % i}
+                for i in range(nv)]
+        cats.append({"id": -1, "name": "", "missing": True, "value": None,
+                     "evalue": {"?": -1}})
+        answers = draw(st.lists(st.sampled_from([c["id"] for c in cats]), min_size=n,
+                                max_size=n))
+        var = {"type": "cat", "flavour": "text", "alias": "r", "name": "R", "cats": cats,
+               "answers": answers, "use_order_key": False, "view_insertions": None}
+        filters = draw(st.lists(st.lists(st.booleans(), min_size=n, max_size=n), min_size=1,
+                                max_size=3))
+        return {"kind": kind, "survey": {"n": n, "weights": None, "vars": {"r": var}},
+                "filters": filters, "shape": [kind],
+                "min_base": draw(st.sampled_from([0, 3])),
+                "population": draw(st.sampled_from([None, 1000]))}
     weights = draw(scen.S.weights_st(n, ("none", "int", "dyadic")))
     svars = {}
     ncols = draw(st.integers(1, 3))
@@ -261,11 +280,82 @@ def case_set_st(draw):
             "population": draw(st.sampled_from([None, 1000]))}
 
 
+def _filter_response(sv, keep):
+    """zz9's answer for the text variable among the respondents in `keep`: values nobody
+    gave are left out and the remaining elements are numbered afresh."""
+    var = sv["vars"]["r"]
+    sub = copy.deepcopy(sv)
+    sub["n"] = sum(keep)
+    sub["vars"]["r"]["answers"] = [a for a, k in zip(var["answers"], keep) if k]
+    resp = zz9enc.encode(sub, {"dims": [{"var": "r"}], "weighted": False})
+    res = resp["result"]
+    els = res["dimensions"][0]["type"]["elements"]
+    counts = list(res["counts"])
+    kept = [i for i, e in enumerate(els) if e.get("missing") or counts[i] > 0]
+    new_els = []
+    for i in kept:
+        e = dict(els[i])
+        if not e.get("missing"):
+            e["id"] = len(new_els)
+        new_els.append(e)
+    res["dimensions"][0]["type"]["elements"] = new_els
+    res["counts"] = [counts[i] for i in kept]
+    res["measures"]["count"]["data"] = [counts[i] for i in kept]
+    res["is_single_col_cube"] = True
+    return resp, len(kept) != len(els)
+
+
+def judge_filtercol(case, rec):
+    sv = case["survey"]
+    var = sv["vars"]["r"]
+    summary = zz9enc.encode(sv, {"dims": [{"var": "r"}], "weighted": False})
+    resps, dropped = [summary], False
+    for keep in case["filters"]:
+        r, d = _filter_response(sv, keep)
+        resps.append(r)
+        dropped = dropped or d
+    rec.nontrivial(dropped)
+    if dropped:
+        rec.event("filter cube lacks a text value")
+    cs = lib.CubeSet(copy.deepcopy(resps), [{} for _ in resps], case["population"],
+                     case["min_base"])
+    psets = cs.partition_sets
+    rec.compared()
+    if len(psets) != 1 or len(psets[0]) != len(resps):
+        rec.violation("filter-column partition_sets shape %r" % ([len(s) for s in psets],),
+                      "set-shape")
+        return
+    valid = [c for c in var["cats"] if not c["missing"]]
+    labels = [c["evalue"] for c in valid]
+    for j, keep in enumerate([[True] * sv["n"]] + case["filters"]):
+        part = psets[0][j]
+        want = [sum(1 for a, k in zip(var["answers"], keep) if k and a == c["id"])
+                for c in valid]
+        rec.compared(3)
+        if list(part.row_labels) != labels:
+            rec.violation("filter-column cube %d row labels %r, the summary cube's are %r" % (
+                j, list(part.row_labels), labels), "filtercol-labels")
+            continue
+        for name in ("counts", "unweighted_counts"):
+            got = np.asarray(getattr(part, name), dtype=float)
+            if got.shape != (len(want),) or not _arr_eq(got, np.asarray(want, dtype=float)):
+                rec.violation("filter-column cube %d %s %r, filtered respondents give %r" % (
+                    j, name, got.tolist(), want), "filtercol-" + name)
+        tot = float(sum(want))
+        got = np.asarray(part.table_proportions, dtype=float)
+        exp = np.asarray([x / tot if tot else np.nan for x in want], dtype=float)
+        if got.shape != exp.shape or not _arr_eq(got, exp):
+            rec.violation("filter-column cube %d table_proportions %r, respondents give %r" % (
+                j, got.tolist(), exp.tolist()), "filtercol-proportions")
+
+
 def judge_set(case, rec):
     sv = case["survey"]
     kind = case["kind"]
-    w = case["weighted"]
     rec.event("kind=" + kind)
+    if kind == "filtercol":
+        return judge_filtercol(case, rec)
+    w = case["weighted"]
     if kind == "single":
         ca = [{"var": "r", "part": "items"}, {"var": "r", "part": "cats"}]
         dims = {"ca": ca, "ca3": ca + [{"var": case["cols"][0]}],
